@@ -113,9 +113,7 @@ theorem onData_store (n : FNode) (d : Data) : (onData n d).1.store = n.store.app
         · rfl
         · split
           · rfl
-          · split
-            · exact h
-            · exact h
+          · exact h
 
 /-! ## the state a store holds after some writes -/
 
